@@ -21,6 +21,19 @@ def tiers(quick_checks, thorough_checks, quick_budget=25, thorough_budget=420, c
     }
 
 PROPS = {
+    "C01": {
+        "tiers": tiers(3000, 150000),
+        "rule": "rapid-generated operation sequence (1-30 of Subscribe/SubscribeContext, Unsubscribe, Clear, ClearAll, Publish/PublishContext, HasHandlers, HandlerCount) by one client task over a pool of 1/2/3/6/40 of the 40 generated event types (40 > any shard count, so routing is shared), option subsets of Once/Async/Sequential/filter, the same function subscribed repeatedly, and per-function scripts of re-entrant operations executed from inside handlers; compared operation by operation with a reference registry (snapshot-at-publish semantics). Async deliveries run as simulator tasks. Non-trivial: more than one operation; distinct = (scenario shape, schedule trace hash, history hash).",
+        "components": REAL_BUS,
+        "assumptions": COMMON_ASSUME + ["a synchronous Sequential handler never publishes (the stated self-overlap exception)", "when a function is registered several times, Unsubscribe may remove any one of them (every choice is tried before reporting)"],
+        "expect_probes": ["reentrant-op-from-handler", "more-types-than-shards"],
+    },
+    "C02": {
+        "tiers": tiers(3000, 120000),
+        "rule": "rapid-generated scenario: 0-3 initial registrations, then 2-4 client tasks each issuing 1-6 operations (Subscribe with Once/Async/Sequential/filter options, Unsubscribe, Clear, Publish) on 1-2 shared event types drawn from 40, + choice tape. Every API call/return and handler entry is stamped with the simulator's sequence number; the oracle applies the property's interval rules per (registration, publish) pair and probes the quiescent registry with two extra publishes. Non-trivial: >=1 decision point with >=2 ready tasks; distinct = (scenario shape, schedule trace hash, history hash).",
+        "components": REAL_BUS,
+        "assumptions": COMMON_ASSUME + ["each registration uses its own handler function, so a registration is identified by its function (Unsubscribe is by function identity)"],
+    },
     "C04": {
         "tiers": tiers(4000, 150000),
         "rule": "rapid-generated scenario (1-5 registrations incl. >=1 Once handler with sync/async x filter kinds, 1-4 concurrent publisher tasks x 1-4 publishes each, every publish live / pre-cancelled) + choice tape; executed under the simrt scheduler. A run is non-trivial when at least one decision point had >=2 ready tasks; distinct = distinct (scenario shape, schedule trace hash, history hash).",
